@@ -238,4 +238,77 @@ def parse (f : Fmt) (s : Bytes) : PR :=
           else ofDecimal f neg m ((if eneg then -(natOfDigits ed : Int) else (natOfDigits ed : Int)) - (fp.length : Int))
         else .err
 
+
+/-! ### fmt.Sprintf("%v", x) for a float: strconv's shortest `%g` (`FormatFloat(x, 'g', -1, bits)`) -/
+
+/-- the decimal digits of `n` as bytes, most significant first -/
+def digitsOf (n : Nat) : Bytes := (Nat.toDigits 10 n).map (·.toNat)
+
+/-- is `t · 10^k` an admissible shortest representation of the float whose neighbours' midpoints are `L·2^g` and
+    `U·2^g` (`incl`: the midpoints themselves are admissible — even mantissa)?  With `A = 2^g⁺·10^(-k)⁺` and
+    `B = 2^(-g)⁺·10^k⁺`: `v·2^g ≥ t·10^k ⇔ v·A ≥ t·B`.  Returns the admissible `t` closest to `C·2^g`, `none` when
+    there is none; `(t, true)` flags an exact tie between two admissible candidates. -/
+def candidate (L C U : Nat) (g k : Int) (incl : Bool) : Option (Nat × Bool) :=
+  let A := 2 ^ g.toNat * 10 ^ (-k).toNat
+  let B := 2 ^ (-g).toNat * 10 ^ k.toNat
+  let hi := if (U * A) % B = 0 ∧ !incl then (U * A) / B - 1 else (U * A) / B
+  let exactU0 := (U * A) % B = 0 ∧ !incl ∧ (U * A) / B = 0
+  let lo := if (L * A) % B = 0 then (if incl then (L * A) / B else (L * A) / B + 1) else (L * A) / B + 1
+  if exactU0 ∨ hi < lo ∨ hi = 0 then none
+  else
+    let q := (C * A) / B
+    let r := (C * A) % B
+    let tie := 2 * r = B
+    let c := if 2 * r > B ∨ (tie ∧ q % 2 = 1) then q + 1 else q
+    let t := if c < lo then lo else if c > hi then hi else c
+    some (t, tie && decide (lo ≤ q) && decide (q + 1 ≤ hi))
+
+/-- the largest decimal exponent `k` (searched downward from `k`) with an admissible `t · 10^k` -/
+def shortestFrom (L C U : Nat) (g : Int) (incl : Bool) : Nat → Int → Option (Nat × Int × Bool)
+  | 0, _ => none
+  | fuel + 1, k =>
+    match candidate L C U g k incl with
+    | some (t, tie) => some (t, k, tie)
+    | none => shortestFrom L C U g incl fuel (k - 1)
+
+/-- `%e` exponent: sign and at least two digits -/
+def expText (x : Int) : Bytes :=
+  (if x < 0 then 45 else 43) :: (if x.natAbs < 10 then 48 :: digitsOf x.natAbs else digitsOf x.natAbs)
+
+/-- `%v` of a finite non-zero magnitude given its shortest digits `ds` and decimal point position `dp` (value
+    `0.ds · 10^dp`): `%e` when the exponent `dp - 1` is below -4 or at least 21 … for the shortest format the
+    threshold is 6 (`eprec = 6`), else `%f` -/
+def layoutG (ds : Bytes) (dp : Int) : Bytes :=
+  let nd : Int := ds.length
+  let x := dp - 1
+  if x < -4 ∨ x ≥ 6 then
+    (match ds with
+     | [] => [48]
+     | d :: rest => if rest = [] then [d] else d :: 46 :: rest) ++ 101 :: expText x
+  else if dp ≤ 0 then
+    48 :: 46 :: (List.replicate (-dp).toNat 48 ++ ds)
+  else if nd ≤ dp then ds ++ List.replicate (dp - nd).toNat 48
+  else ds.take dp.toNat ++ 46 :: ds.drop dp.toNat
+
+/-- `fmt.Sprintf("%v", x)` for the float with these bits; `none` on an exact tie between two shortest candidates
+    (left to the implementation) -/
+def fmtG (f : Fmt) (b : Nat) : Option Bytes :=
+  match decode f b with
+  | .nan => some [78, 97, 78]                                         -- NaN
+  | .inf s => some ((if s then 45 else 43) :: [73, 110, 102])         -- +Inf / -Inf
+  | .fin s m e =>
+    let sign : Bytes := if s then [45] else []
+    if m = 0 then some (sign ++ [48])
+    else
+      -- the midpoints to the neighbours, in units of 2^(e-2): the lower one is closer at a binade border
+      let border := m = 2 ^ f.mb ∧ f.emin < e
+      let L := if border then 4 * m - 1 else 4 * m - 2
+      let g := e - 2
+      -- start above the decimal magnitude of the upper midpoint: 10^k0 > U·2^g
+      let k0 : Int := (((4 * m + 2).log2 : Int) + g + 1) * 30103 / 100000 + 2
+      match shortestFrom L (4 * m) (4 * m + 2) g (m % 2 == 0) 60 k0 with
+      | none => none
+      | some (_, _, true) => none
+      | some (t, k, false) => some (sign ++ layoutG (digitsOf t) ((digitsOf t).length + k))
+
 end SoftFloat
